@@ -126,7 +126,12 @@ func (i *jsonInputIter) Next() (any, bool) {
 	if buf := i.ir.buf; buf != nil && buf.Len() >= 16*1024 {
 		// discard the consumed bytes only since the decoder reads ahead
 		n := min(int(i.dec.InputOffset()-i.offset), buf.Len())
-		if n > 0 && buf.Bytes()[n-1] == '\r' {
+		// keep the beginning of the current line to show it on error
+		if j := bytes.LastIndexByte(buf.Bytes()[:n], '\n'); j >= 0 {
+			n = j + 1
+		} else if j := bytes.LastIndexByte(buf.Bytes()[:max(n-1, 0)], '\r'); j >= 0 {
+			n = j + 1
+		} else if n > 0 && buf.Bytes()[n-1] == '\r' {
 			n-- // CR can be followed by LF
 		}
 		i.offset += int64(n)
